@@ -31,6 +31,7 @@ type Config struct {
 	Deadline         time.Time
 	Params           map[string]int64
 	NoFallback       bool
+	FloatHavoc       bool
 	HardTimeoutS     int
 	ValidateSamples  int
 }
@@ -57,6 +58,8 @@ type PathResult struct {
 	OutEval [][2]string
 	Steps   int
 	Cuts    int
+	AutoHeld int
+	Havocs  int
 	Allocs  []AllocReport
 	Choices map[string]int64
 }
@@ -112,7 +115,7 @@ type Worker struct {
 	initExec     *Exec
 	fns          map[string]int
 	id           int
-	ifSites      map[*ssa.If]*ifSite
+	memo         map[string][]Value
 }
 
 func (w *Worker) push(p []Decision) {
@@ -214,6 +217,12 @@ func (w *Worker) runPath(prefix []Decision) PathResult {
 	}
 	ex := w.newExec(prefix)
 	res := PathResult{}
+	tStart := time.Now()
+	defer func() {
+		if d := time.Since(tStart); d > 15*time.Second && os.Getenv("GOSYM_SLOW") != "" {
+			fmt.Fprintf(os.Stderr, "SLOW-PATH %.1fs steps=%d choices=%v stop=%s %s\n", d.Seconds(), ex.steps, ex.choices, stopNames[res.Stop.kind], res.Stop.msg)
+		}
+	}()
 	func() {
 		defer func() {
 			e := recover()
@@ -242,6 +251,8 @@ func (w *Worker) runPath(prefix []Decision) PathResult {
 	res.PCLen = len(ex.pc)
 	res.Steps = ex.steps
 	res.Cuts = ex.cuts
+	res.AutoHeld = ex.autoHeld
+	res.Havocs = ex.havocs
 	res.Choices = ex.choices
 	w.stats.Steps += int64(ex.steps)
 	ex.finishPath(&res)
@@ -264,7 +275,7 @@ func (r *Run) Explore() {
 	}
 	workers := make([]*Worker, n)
 	for i := 0; i < n; i++ {
-		w := &Worker{run: r, cfg: &r.Cfg, tb: NewTB(), fns: map[string]int{}, id: i, ifSites: map[*ssa.If]*ifSite{}}
+		w := &Worker{run: r, cfg: &r.Cfg, tb: NewTB(), fns: map[string]int{}, id: i, memo: map[string][]Value{}}
 		w.stats.Stops = map[string]int{}
 		kind := os.Getenv("GOSYM_SOLVER")
 		if kind == "" {
